@@ -208,10 +208,9 @@ def perm_st(draw, names=NAMED + ("other",)):
 # --------------------------------------------------------------------------- #
 def _rk(row):
     def r(v):
-        if isinstance(v, float):
+        if isinstance(v, (bool, int, float)):
+            v = float(v)
             return "nan" if math.isnan(v) else round(v, 6) + 0.0
-        if isinstance(v, bool):
-            return int(v)
         if isinstance(v, dict):
             return {k: r(x) for k, x in v.items()}
         if isinstance(v, (list, tuple)):
@@ -808,18 +807,6 @@ def check_write_bms(case, ctx):
 
 
 # --------------------------------------------------------------------------- #
-def _append_item_route(case, failure) -> bool:
-    """The case grows some list with append(item) (proposed_fixes/C15_append_item_object_dtype.md:
-    such a list is all-object, full_ln raises on it and hitsound_copy drops its default sounds)."""
-    for key in ("perm", "perm_src", "perm_tgt"):
-        for sp in (case.get(key) or {}).values():
-            if isinstance(sp, dict) and sp.get("how") == "append":
-                return True
-    return False
-
-
-KNOWN_PREDICATES = {"append_item_route": _append_item_route}
-
 SUBS = [
     Sub("rate", check_rate, strategy=rate_case_st, examples={"quick": 240, "thorough": 150}, shards={"quick": 1, "thorough": 16}),
     Sub("convert", check_convert, strategy=convert_case_st, examples={"quick": 200, "thorough": 150}, shards={"quick": 2, "thorough": 16}),
